@@ -85,8 +85,6 @@ class World:
 
     def _fresh_model_fs(self):
         F = symfs.FS(symfs.ModelBackend(), blksize=self.blksize)
-        if self.mp:
-            F.env["USE_MULTIPROCESSING"] = "True"
         F.b.dirs["/src"] = True
         for k, c in enumerate(self.contents):
             F.b.create("/src/c%d" % k, c)
@@ -160,6 +158,10 @@ class World:
         if len(set(allp)) != len(allp):
             raise EngineError("learned addresses collide: identifiers alias (C18 territory)")
         self.shim.fs = F0
+        if self.mp:
+            # the layout was learned in the default mode; the instance under test is initialised with the variable set
+            F0.env["USE_MULTIPROCESSING"] = "True"
+            self.S0 = self.M.FileHashStore(self.props("/s"))
         # directory chains: every ancestor below the store's sub-roots
         self.chains = {}
         for path in allp:
@@ -297,10 +299,7 @@ class World:
         for v, d in enumerate(self.docs):
             with open(self.docsrc(v), "wb") as f:
                 f.write(d)
-        if self.mp:
-            os.environ["USE_MULTIPROCESSING"] = "True"
-        else:
-            os.environ.pop("USE_MULTIPROCESSING", None)
+        os.environ.pop("USE_MULTIPROCESSING", None)       # the history is built in the default mode
         s = self.MN.FileHashStore(self.props(self.root()))
         hist = []
         bindv = [ps.choose(self.bind[i], -1, self.NC) for i in range(self.NP)]
@@ -327,7 +326,12 @@ class World:
                 os.makedirs(self.scratch + d, exist_ok=True)
         self.history = hist
         self.nb = symfs.RealBackend(self.scratch)
-        self.native_store = self.MN.FileHashStore(self.props(self.root()))
+        if self.mp:
+            os.environ["USE_MULTIPROCESSING"] = "True"
+        try:
+            self.native_store = self.MN.FileHashStore(self.props(self.root()))
+        finally:
+            os.environ.pop("USE_MULTIPROCESSING", None)
         self.F = None
         return None
 
@@ -358,6 +362,7 @@ class World:
             rb.create("/src/c%d" % k, c)
         for v, d in enumerate(self.docs):
             rb.create("/src/d%d" % v, d)
+        F.env.pop("USE_MULTIPROCESSING", None)      # the history is built in the default mode
         s = self.M.FileHashStore(self.props("/s"))
         hist = []
         bindv = [ps.choose(self.bind[i], -1, self.NC) for i in range(self.NP)]
